@@ -27,7 +27,12 @@ from . import common_fitness as cf
 PMOD = "fandango.language.grammar.parser"
 
 
+def names_in_expr(e: ast.AST) -> set[str]:
+    return {x.id for x in ast.walk(e) if isinstance(x, ast.Name)}
+
+
 def run(chk: Check, eng: Engine) -> None:
+    chk.rule("R04-e", "scanner leaves carry text sliced from the input word, and the Earley column advance equals the consumed length times the columns-per-byte constant", floor=10)
     chk.rule("R04-a", "the public parse API yields only trees for which every constraint's check() is true", floor=2)
     chk.rule("R04-b", "trees leave the parser only through collapse() unless control-flow nodes were asked for; helper-symbol prefixes agree between writers and reader", floor=12)
     chk.rule("R04-c", "an exception raised while checking a constraint rejects the input", floor=3)
@@ -75,6 +80,7 @@ def run(chk: Check, eng: Engine) -> None:
     from ..dataflow import ReachingDefs
 
     rd = ReachingDefs(pcfg, pf.params())
+    ReachingDefs_ = ReachingDefs
     cf_ifs_true = set()
     for g in pcfg.nodes:
         if g.kind == "if":
@@ -196,6 +202,93 @@ def run(chk: Check, eng: Engine) -> None:
     else:
         chk.bad("R04-c", eng.relfile(chk_m), chk_m.line, chk_m.fq, "check() no longer returns fitness(...).success", "validation and search disagree on what satisfied means", keyparts="check-def")
 
+    # ---- R04-e ---------------------------------------------------------------
+    from ..dataflow import backward_slice
+
+    cons = eng.method(ip, "_consume", inherited=False)
+    per_byte = None
+    for n in walk_local(cons.node):
+        if isinstance(n, ast.BinOp) and isinstance(n.op, ast.Mult) and "len(char)" in norm(n.left) and isinstance(n.right, ast.Constant):
+            per_byte = n.right.value
+    mods = {c.comparators[0].value for c in walk_local(cons.node) if isinstance(c, ast.Compare) and isinstance(c.left, ast.BinOp) and isinstance(c.left.op, ast.Mod)
+            and isinstance(c.left.right, ast.Constant) for _ in [0] if isinstance(c.comparators[0], ast.Constant)}
+    mod_consts = {c.left.right.value for c in walk_local(cons.node) if isinstance(c, ast.Compare) and isinstance(c.left, ast.BinOp) and isinstance(c.left.op, ast.Mod) and isinstance(c.left.right, ast.Constant)}
+    if per_byte is None:
+        raise AnalysisError("_consume: `len(char) * <columns per byte>` not found")
+    if mod_consts == {per_byte}:
+        chk.ok("R04-e", cons.fq, cons.line, f"_consume allocates {per_byte} columns per input byte and advances the byte index every {per_byte} columns")
+    else:
+        chk.bad("R04-e", eng.relfile(cons), cons.line, cons.fq, f"_consume allocates {per_byte} columns per byte but advances the byte index modulo {sorted(mod_consts)}",
+                "scanners read the wrong input position: trees whose text differs from the input are yielded (or valid inputs rejected)", keyparts="columns-per-byte")
+    for sname in ("scan_bytes", "scan_regex", "scan_bit"):
+        sm = eng.method(ip, sname, inherited=False)
+        scfg = eng.cfg(sm)
+        srd = ReachingDefs(scfg, sm.params())
+        # leaves built by the scanner
+        leaves = []
+        for n in scfg.nodes:
+            if n.kind == "stmt" and isinstance(n.ast, ast.Assign) and isinstance(n.ast.value, ast.Call) and call_name(n.ast.value) in ("ParserDerivationTree", "DerivationTree") \
+                    and n.ast.value.args:
+                a0 = n.ast.value.args[0]
+                leaves.append((n, a0.args[0] if isinstance(a0, ast.Call) and call_name(a0) == "Terminal" and a0.args else a0))
+        if not leaves:
+            raise AnalysisError(f"{sm.fq}: no leaf construction found")
+        for n, x in leaves:
+            defs, _calls = backward_slice(scfg, srd, n.id, {nm for nm in names_in_expr(x)})
+            from_word = any(scfg.nodes[d].kind == "entry" and nm == "word" for d, nm in defs) or "word" in names_in_expr(x)
+            from_dot_only = "state" in names_in_expr(x) and not from_word
+            if from_word and not from_dot_only:
+                chk.ok("R04-e", sm.fq, n.line, f"{sname}: leaf text `{short(x)}` is taken from the input word")
+            else:
+                chk.bad("R04-e", eng.relfile(sm), n.line, sm.fq, f"{sname}: leaf text `{short(x)}` is not derived from the input word",
+                        "the yielded tree spells the grammar's expectation, not the input: its serialisation differs from what was parsed", keyparts=f"leaf-not-input|{sname}")
+        # column advance agrees with the length of the leaf
+        adds = [n for n in scfg.nodes if n.kind == "stmt" and n.ast is not None and any(
+            isinstance(c, ast.Call) and call_name(c) == "add" and isinstance(c.func, ast.Attribute) and isinstance(c.func.value, ast.Subscript) and isinstance(c.func.value.value, ast.Name)
+            and c.func.value.value.id == "table" for c in ast.walk(n.ast))]
+        for a in adds:
+            call = [c for c in ast.walk(a.ast) if isinstance(c, ast.Call) and call_name(c) == "add" and isinstance(c.func.value, ast.Subscript)][0]  # type: ignore[union-attr]
+            idx = call.func.value.slice  # type: ignore[union-attr]
+            if sname == "scan_bit":
+                if norm(idx) == "k + 1":
+                    chk.ok("R04-e", sm.fq, a.line, "scan_bit advances exactly one column per bit")
+                else:
+                    chk.bad("R04-e", eng.relfile(sm), a.line, sm.fq, f"scan_bit advances to column `{short(idx)}`", "bits are consumed at the wrong rate", keyparts="bit-advance")
+                continue
+            # k + (L - state.incomplete_idx) * M
+            ok = False
+            detail = short(idx)
+            if isinstance(idx, ast.BinOp) and isinstance(idx.op, ast.Add) and norm(idx.left) == "k" and isinstance(idx.right, ast.BinOp) and isinstance(idx.right.op, ast.Mult):
+                inner, mult = idx.right.left, idx.right.right
+                mval = None
+                if isinstance(mult, ast.Constant):
+                    mval = mult.value
+                elif isinstance(mult, ast.Name):
+                    mdefs = [scfg.nodes[d].ast for d in srd.defs_reaching(a.id, mult.id)]
+                    vals = {m_.value.value for m_ in mdefs if isinstance(m_, ast.Assign) and isinstance(m_.value, ast.Constant)}
+                    mval = next(iter(vals)) if len(vals) == 1 else None
+                length_ok = False
+                if isinstance(inner, ast.BinOp) and isinstance(inner.op, ast.Sub) and norm(inner.right) == "state.incomplete_idx" and isinstance(inner.left, ast.Name):
+                    L = inner.left.id
+                    # the leaf that feeds this state is sliced with the same length
+                    lens = set()
+                    state_arg = call.args[0].id if call.args and isinstance(call.args[0], ast.Name) else "next_state"
+                    D = srd.defs_reaching(a.id, state_arg)
+                    for ln, x in leaves:
+                        if isinstance(x, ast.Subscript) and isinstance(x.slice, ast.Slice) and x.slice.upper is not None and scfg.find_path(ln.id, [a.id]) is not None \
+                                and (srd.defs_reaching(ln.id, state_arg) & D):
+                            up = x.slice.upper
+                            lens.add(norm(up))
+                    ldefs = {norm(scfg.nodes[d].ast.value) for d in srd.defs_reaching(a.id, L) if isinstance(scfg.nodes[d].ast, ast.Assign) and isinstance(scfg.nodes[d].ast.value, ast.Name)}  # type: ignore[union-attr]
+                    length_ok = bool(lens) and all(u == L or u in ldefs for u in lens)
+                    detail = f"leaf length {sorted(lens)} vs advance by `{L}` (= {sorted(ldefs) or L}) x {mval}"
+                ok = length_ok and mval == per_byte
+            if ok:
+                chk.ok("R04-e", sm.fq, a.line, f"{sname}: {detail}: the column advance equals the consumed length times {per_byte}")
+            else:
+                chk.bad("R04-e", eng.relfile(sm), a.line, sm.fq, f"{sname}: column advance `{short(idx)}` does not match the consumed text ({detail})",
+                        "the parser continues at a position that does not correspond to the text put into the tree: yielded trees do not spell the input", keyparts=f"advance-mismatch|{sname}")
+
     # ---- R04-d ---------------------------------------------------------------
     gp = eng.cls("fandango.language.parse.convert", "GrammarProcessor")
     fam = {c.name: c for c in node_base.family()}
@@ -232,6 +325,12 @@ _IP = "src/fandango/language/grammar/parser/iterative_parser.py"
 _R = "src/fandango/language/grammar/nodes/repetition.py"
 _CMP = "src/fandango/constraints/comparison.py"
 MUTANTS = [
+    M("regex-leaf-uses-offset-before-reset", _IP, "            tree = ParserDerivationTree(Terminal(check_word[:match_length]))\n            if state.is_incomplete:\n                next_state.children[-1] = tree\n            else:\n                next_state.append_child(tree)\n            table[\n                k + ((table_offset - state.incomplete_idx) * table_idx_multiplier)\n            ].add(next_state)",
+      "            tree = ParserDerivationTree(Terminal(check_word[:match_length]))\n            if state.is_incomplete:\n                next_state.children[-1] = tree\n            else:\n                next_state.append_child(tree)\n            table[\n                k + ((incomplete_table_offset - state.incomplete_idx) * table_idx_multiplier)\n            ].add(next_state)", "R04-e"),
+    M("bytes-leaf-from-grammar-literal", _IP, "        else:\n            next_state = state.next()\n            next_state.is_incomplete = False\n            next_state.incomplete_idx = 0\n            tree = ParserDerivationTree(Terminal(check_word[:match_length]))",
+      "        else:\n            next_state = state.next()\n            next_state.is_incomplete = False\n            next_state.incomplete_idx = 0\n            tree = ParserDerivationTree(state.dot)", "R04-e"),
+    M("bytes-advance-by-literal-length", _IP, "        table[k + ((match_length - state.incomplete_idx) * table_idx_multiplier)].add(\n            next_state\n        )", "        table[k + ((dot_len - state.incomplete_idx) * table_idx_multiplier)].add(\n            next_state\n        )", "R04-e"),
+    M("columns-per-byte-mismatch", _IP, "        table_idx_multiplier = 8\n        match, match_length = state.dot.check(check_word)\n        table_offset = match_length", "        table_idx_multiplier = 4\n        match, match_length = state.dot.check(check_word)\n        table_offset = match_length", "R04-e"),
     M("api-filter-first-constraint", _API, "            if all(constraint.check(tree) for constraint in self.constraints):", "            if all(constraint.check(tree) for constraint in self.constraints[:1]):", "R04-a"),
     M("api-yield-last-tree-too", _API, "            else:\n                last_tree = tree\n\n        return last_tree", "            else:\n                last_tree = tree\n        if last_tree is not None and prefix:\n            yield last_tree\n\n        return last_tree", "R04-a"),
     M("miss-path-yields-uncollapsed", _P, "                collapsed = self.collapse(tree)\n                if collapsed is not None:\n                    yield collapsed\n        # Publish", "                collapsed = self.collapse(tree)\n                if collapsed is not None:\n                    yield collapsed\n                else:\n                    yield tree\n        # Publish", "R04-b"),
